@@ -176,9 +176,14 @@ def plain_case(obs, rng, spec):
         subset = sorted(int(i) for i in rng.permutation(len(axes))[:int(rng.integers(1, len(axes)))])
     chosen = axes if subset is None else [axes[i] for i in subset]
     as_arrays = chance(rng, 0.4)
+    one_shot = chance(rng, 0.3)
+    if one_shot:
+        obs.cls('depth-coordinates-as-one-shot-iterable')
 
     def call(dataset, a, b):
         coords = [dataset[x['name']] if as_arrays else x['name'] for x in chosen]
+        if one_shot:
+            coords = iter(coords)         # an Iterable that can be consumed only once
         return depth.normalize_depth_variables(dataset, coords, positive_down=a, deep_to_shallow=b)
 
     drive(obs, rng, spec, ds, axes, chosen, call, 'direct', 'plain')
